@@ -49,7 +49,7 @@ def main():
     ap.add_argument("--tier", default="quick")
     ap.add_argument("--jobs", type=int, default=2)
     a = ap.parse_args()
-    ids = sorted(x for x in os.listdir(os.path.join(VERIF, "seeded")) if os.path.isdir(os.path.join(VERIF, "seeded", x)))
+    ids = sorted(x for x in os.listdir(os.path.join(VERIF, "seeded")) if os.path.isdir(os.path.join(VERIF, "seeded", x)) and not x.startswith("refactor-"))
     if a.only:
         ids = [i for i in ids if i in a.only.split(",")]
     jobs = []
@@ -65,7 +65,8 @@ def main():
 
 
 def write_matrix():
-    ids = sorted(x for x in os.listdir(os.path.join(VERIF, "seeded")) if os.path.isdir(os.path.join(VERIF, "seeded", x)))
+    allids = sorted(x for x in os.listdir(os.path.join(VERIF, "seeded")) if os.path.isdir(os.path.join(VERIF, "seeded", x)))
+    ids = [x for x in allids if not x.startswith("refactor-")]
     lines = ["# Seeded changes x checks (quick tier, VERIF_SEED=0 unless noted)", "", "V = VIOLATION reported, . = silent, blank = not run, E = harness error", "", "| seeded change | breaks | " + " | ".join(ALL) + " | tests+demo |", "|---|---|" + "---|" * (len(ALL) + 1)]
     for sid in ids:
         d = os.path.join(VERIF, "seeded", sid)
@@ -77,6 +78,14 @@ def write_matrix():
             row.append("" if v is None else {0: ".", 1: "V", 2: "E"}.get(v["rc"], "?"))
         ok = res.get("tests_rc") == 0 and res.get("demo_clean_rc") == 0 and res.get("demo_patched_rc", 0) != 0
         lines.append(f"| {sid} | {meta['property']} | " + " | ".join(row) + f" | {'ok' if ok else '?'} |")
+    lines += ["", "# Behaviour-preserving refactors (round 3): every check that was run must stay silent", "", "| refactor | focus | " + " | ".join(ALL) + " |", "|---|---|" + "---|" * len(ALL)]
+    for sid in [x for x in allids if x.startswith("refactor-")]:
+        meta = json.load(open(os.path.join(VERIF, "seeded", sid, "meta.json")))
+        row = []
+        for p in ALL:
+            v = meta.get("checks_run_quick_tier_seed0", {}).get(p)
+            row.append("" if v is None else {"silent": ".", "VIOLATION": "V"}.get(v["verdict"], "E"))
+        lines.append(f"| {sid} | {meta['focus']} | " + " | ".join(row) + " |")
     open(os.path.join(VERIF, "seeded", "MATRIX.md"), "w").write("\n".join(lines) + "\n")
 
 
